@@ -560,7 +560,7 @@ where
             log: raft_log.clone() as Arc<dyn LogView>,
         },
     );
-    rec.push(net.now(), Ev::Start { node: node_id, inc, learner: is_learner });
+    rec.push(net.now(), Ev::Start { node: node_id, inc, learner: is_learner, applied: state_machine.last_applied().index });
 
     let exited = Arc::new(AtomicBool::new(false));
     let exited2 = exited.clone();
